@@ -471,46 +471,98 @@ func (b *backendPlaySessionHandler) handleAvailableCommands(p *packet.AvailableC
 }
 
 func filterNode(src brigodier.CommandNode, cmdSrc command.Source) brigodier.CommandNode {
-	return filterNodeSeen(src, cmdSrc, make(map[brigodier.CommandNode]brigodier.CommandNode))
+	f := &nodeFilter{
+		cmdSrc:     cmdSrc,
+		seen:       make(map[brigodier.CommandNode]brigodier.CommandNode),
+		inProgress: make(map[brigodier.CommandNode]bool),
+	}
+	dest, _ := f.filter(src)
+	// Link the children that could not be copied yet when their parent was visited
+	// because they (transitively) redirect to a node that was still being copied,
+	// i.e. a node redirecting to the root or one of its own ancestors.
+	for len(f.pending) != 0 {
+		pending := f.pending
+		f.pending = nil
+		progress := false
+		for _, link := range pending {
+			child, deferred := f.filter(link.child)
+			if deferred {
+				f.pending = append(f.pending, link)
+				continue
+			}
+			progress = true
+			if child != nil {
+				link.parent.AddChild(child)
+			}
+		}
+		if !progress {
+			// Only cycles made of redirects alone are left, they can not be resolved.
+			f.final = true
+		}
+	}
+	return dest
 }
 
-// filterNodeSeen remembers the filtered copy of every visited node so that
+// nodeFilter remembers the filtered copy of every visited node so that
 // redirects back to the root or an ancestor resolve to that copy instead of
 // recursing forever.
-func filterNodeSeen(
-	src brigodier.CommandNode,
-	cmdSrc command.Source,
-	seen map[brigodier.CommandNode]brigodier.CommandNode,
-) brigodier.CommandNode {
-	if dest, ok := seen[src]; ok {
-		return dest // nil if not usable or while resolving a pure redirect cycle
+type nodeFilter struct {
+	cmdSrc     command.Source
+	seen       map[brigodier.CommandNode]brigodier.CommandNode // nil if not usable
+	inProgress map[brigodier.CommandNode]bool                  // visited, copy not built yet
+	pending    []pendingChild
+	final      bool // give up on redirect targets that are still in progress
+}
+
+type pendingChild struct {
+	parent brigodier.CommandNode // filtered copy
+	child  brigodier.CommandNode // source node
+}
+
+// filter returns the filtered copy of src, or deferred if the copy can only be
+// built once a node that is currently being copied is finished.
+func (f *nodeFilter) filter(src brigodier.CommandNode) (dest brigodier.CommandNode, deferred bool) {
+	if dest, ok := f.seen[src]; ok {
+		return dest, false
 	}
-	var dest brigodier.CommandNode
+	if f.inProgress[src] {
+		return nil, !f.final
+	}
 	_, ok := src.(*brigodier.RootCommandNode)
 	if ok {
 		dest = &brigodier.RootCommandNode{}
 	} else {
-		seen[src] = nil
-		if !src.CanUse(command.ContextWithSource(context.Background(), cmdSrc)) {
-			return nil
+		if !src.CanUse(command.ContextWithSource(context.Background(), f.cmdSrc)) {
+			f.seen[src] = nil
+			return nil, false
 		}
 		builder := src.CreateBuilder().Requires(func(context.Context) bool { return true })
 		if src.Redirect() != nil {
-			builder.Redirect(filterNodeSeen(src.Redirect(), cmdSrc, seen))
+			f.inProgress[src] = true
+			target, deferred := f.filter(src.Redirect())
+			delete(f.inProgress, src)
+			if deferred {
+				return nil, true
+			}
+			builder.Redirect(target)
 		}
 		dest = builder.Build()
 	}
-	seen[src] = dest
+	f.seen[src] = dest
 
 	src.ChildrenOrdered().Range(func(_ string, sourceChild brigodier.CommandNode) bool {
-		destChild := filterNodeSeen(sourceChild, cmdSrc, seen)
+		destChild, deferred := f.filter(sourceChild)
+		if deferred {
+			f.pending = append(f.pending, pendingChild{parent: dest, child: sourceChild})
+			return true
+		}
 		if destChild != nil {
 			dest.AddChild(destChild)
 		}
 		return true
 	})
 
-	return dest
+	return dest, false
 }
 
 func (b *backendPlaySessionHandler) handleCookieStore(p *cookie.CookieStore) {
